@@ -34,6 +34,27 @@ class VInt(Val):
         return "VInt(%s)" % self.e
 
 
+class VName(VInt):
+    """an identifier (type / field name) abstracted to an integer by an ADT encoding.  Distinct names are distinct integers; a string
+    constant the code compares it with is encoded reversibly (name_code), so that tables of names in the code are modelled exactly."""
+    __slots__ = ()
+
+
+def name_code(s):
+    return 10 ** 6 + int.from_bytes(s.encode("utf-8"), "big")
+
+
+def name_of_code(n):
+    """the string a name code stands for, or None for an anonymous name"""
+    if n < 10 ** 6:
+        return None
+    k = n - 10 ** 6
+    try:
+        return k.to_bytes((k.bit_length() + 7) // 8, "big").decode("utf-8")
+    except (UnicodeDecodeError, OverflowError):
+        return None
+
+
 class VBool(Val):
     __slots__ = ("e",)
 
